@@ -134,6 +134,11 @@ def run(tier, seed):
         for st, sr in [("食", "た"), ("勉強", "べんきょう"), ("x", "えっくす"), ("亜", "a")]:
             ng.append({"op": "dic_new_guessed", "reading": sr + e, "word": st + e})
             ngmeta.append(("good", st, sr, e))
+    # the stem's reading itself ends with the ending (可愛い/かわいい, 無駄だ/むだだ): exactly ONE ending is stripped, from word and reading alike
+    for e in endings:
+        if e:
+            ng.append({"op": "dic_new_guessed", "reading": "かわ" + e + e, "word": "愛" + e})
+            ngmeta.append(("good", "愛", "かわ" + e, e))
     # the shortest well-formed pairs: the word is nothing but a recognised ending (stem and stem reading empty)
     for e in ["ない", "い", "だ", "かない", "しない", "xない", "あない"]:
         ng.append({"op": "dic_new_guessed", "reading": e, "word": e})
@@ -211,7 +216,7 @@ Definition ccheck (c : ccase) : bool :=
     end
   end.
 """
-        okc, failing, clog = run_coq_cases("C12", IMPORTS, "ccase", "ccheck", ccases, shard=max(500, len(ccases) // 16 + 1), extra_defs=extra)
+        okc, failing, clog = run_coq_cases("C12", IMPORTS, "ccase", "ccheck", ccases, shard=min(1500, max(500, len(ccases) // 16 + 1)), extra_defs=extra)
         n_model = len(ccases)
         if not okc:
             res.tie_broken("correspondence: evaluating the conjugation model failed", clog)
